@@ -73,3 +73,16 @@ Print Assumptions C18_pinned_to_public_refuted.
 Print Assumptions C18_pinned_deser_refuted.
 Print Assumptions C18_params_mut_assign_refuted.
 Print Assumptions C18_params_mut_same_family.
+
+(* a key obtained by conversion from the JSON-proof-token key type is coherent whatever that key declared *)
+Theorem C18_from_foreign_coherent : forall f k, jwk_from_foreign false f = CvOk k ->
+  j_kty k = params_kty (j_params k) /\ (exists c x y d, f_params f = FEc c x y d /\ j_params k = PEc c x y d) /\ j_kid k = f_kid f.
+Proof. exact from_foreign_coherent. Qed.
+Print Assumptions C18_from_foreign_coherent.
+Theorem C18_from_foreign_total : forall f, jwk_from_foreign false f <> CvPanic.
+Proof. exact from_foreign_total. Qed.
+Print Assumptions C18_from_foreign_total.
+(* the pinned tree: unreachable!() on an octet-key-pair key (repaired; KNOWN_FINDINGS fixed: C05 / C18) *)
+Theorem C18_from_foreign_pinned_panics : exists f, jwk_from_foreign true f = CvPanic.
+Proof. exact from_foreign_pinned_panics. Qed.
+Print Assumptions C18_from_foreign_pinned_panics.
